@@ -172,12 +172,22 @@ func genC06(tier string, seed uint64, idx int) *simkit.Plan {
 		p.Add(simkit.St("d", rng.Uint64(), "key", 1000-rng.Intn(2)*999))
 	}
 
+	if real != 0 && !fault && keys > 0 && rng.Chance(1, 2) {
+		// an early key is rewritten at the very end: the record with the largest offset is then not the one
+		// with the largest key (the sorted index and the data file disagree about what comes last)
+		s := volsim.GenWriteStep(rng, 1, "w")
+		s.A["key"] = int64(1 + rng.Intn(keys))
+		s.A["size"] = int64(rng.Range(1, 3000))
+		s.A["name"], s.A["mime"] = 0, 0
+		p.Add(s)
+	}
 	// check steps
 	if !fault {
 		p.Add(simkit.St("read", rng.Uint64(), "n", rng.Range(8, 40)))
 		if real != 0 {
-			p.Add(simkit.St("decode", rng.Uint64()))
+			// (decode last: loading the decoded volume runs into a recorded finding whenever the largest key is not the last record)
 			p.Add(simkit.St("ecvol", rng.Uint64(), "miss", 0))
+			p.Add(simkit.St("decode", rng.Uint64()))
 		}
 		return p
 	}
